@@ -248,7 +248,11 @@ func (c07) Run(c Case, env *Env) Result {
 		}
 		res.NTCount = n
 		res.Count("int32_streaming_roundtrips", res.Evals)
-		res.Sample(map[string]interface{}{"kind": "int32 range", "from": c.A, "to": c.B})
+		{
+			x := int32(c.A)
+			w, out, _, _, n := ss.rt(x)
+			res.Sample(map[string]interface{}{"kind": "int32 range", "from": c.A, "to": c.B, "first": map[string]interface{}{"value": x, "wire": fmt.Sprintf("%x", w), "decoded": fmt.Sprintf("%T %v", out, out), "bytes_consumed": n}})
+		}
 	case "i64table":
 		seen := map[int64]bool{}
 		one := func(x int64) {
@@ -291,7 +295,11 @@ func (c07) Run(c Case, env *Env) Result {
 			}
 		}
 		res.NTCount = int64(len(seen))
-		res.Sample(map[string]interface{}{"kind": "int64 samples", "seed": c.Seed, "count": c.Count})
+		{
+			x := int64(rand.New(rand.NewSource(c.Seed)).Uint64())
+			w, out, _, _, n := ss.rt(x)
+			res.Sample(map[string]interface{}{"kind": "int64 samples", "seed": c.Seed, "count": c.Count, "first": map[string]interface{}{"value": x, "wire": fmt.Sprintf("%x", w), "decoded": fmt.Sprintf("%T %v", out, out), "bytes_consumed": n}})
+		}
 	case "bulk":
 		bulkCheck(env, &res, c, "int")
 		res.Sample(map[string]interface{}{"kind": "bulk", "what": "long lists of longs/ints and scalars behind 4070..4100 bytes of padding"})
